@@ -37,6 +37,8 @@ type Tamper struct {
 	To    ID
 	Kind  string
 	F     func(data []byte) (out []byte, drop bool)
+	// All, if set, replaces F/To/Kind: it sees every message From emits in Round (a consistent multi-message strategy).
+	All func(to ID, kind string, data []byte) (out []byte, drop bool)
 }
 
 type Reject struct {
@@ -164,8 +166,12 @@ func Run(parties []Party, tamper *Tamper, obs Observer) *Result {
 			}
 			if o.b != nil {
 				data, drop := o.b, false
-				if tamper != nil && tamper.Round == k && tamper.From == s.ID() && tamper.Kind == "b" {
-					data, drop = tamper.F(data)
+				if tamper != nil && tamper.Round == k && tamper.From == s.ID() {
+					if tamper.All != nil {
+						data, drop = tamper.All(0, "b", data)
+					} else if tamper.Kind == "b" {
+						data, drop = tamper.F(data)
+					}
 				}
 				if !drop {
 					for _, r := range parties {
@@ -181,8 +187,12 @@ func Run(parties []Party, tamper *Tamper, obs Observer) *Result {
 			}
 			for to, data := range o.u {
 				drop := false
-				if tamper != nil && tamper.Round == k && tamper.From == s.ID() && tamper.Kind == "u" && tamper.To == to {
-					data, drop = tamper.F(data)
+				if tamper != nil && tamper.Round == k && tamper.From == s.ID() {
+					if tamper.All != nil {
+						data, drop = tamper.All(to, "u", data)
+					} else if tamper.Kind == "u" && tamper.To == to {
+						data, drop = tamper.F(data)
+					}
 				}
 				if drop {
 					continue
